@@ -111,7 +111,7 @@ def out_tokens(b, events, sink_local):
 def self_conds(events, data_args=(0,)):
     """branch decisions that depend on the value being encoded (not on `?` results)"""
     out = []
-    for t, lab in P.conds(events):
+    for t, lab in U.canon_int_conds(P.conds(events)):
         if lab[0] == "try":
             continue
         if U.has_arg(t, "self") or any(isinstance(x, tuple) and x and x[0] == "arg" and x[1] in data_args for x in subterms(t)):
